@@ -409,6 +409,10 @@ class SFNTWriter(object):
 
     def writeMasterChecksum(self, directory):
         checksumadjustment = self._calcMasterChecksum(directory)
+        if self.tables["head"].length < 12:
+            # A 'head' table kept as damaged raw data is too short to hold the
+            # checkSumAdjustment field; writing it would overwrite the next table.
+            return
         # write the checksum to the file
         self.file.seek(self.tables["head"].offset + 8)
         self.file.write(struct.pack(">L", checksumadjustment))
